@@ -33,7 +33,7 @@ tvars == <<l, use, lim, exp, pd, viol>>
 R == INSTANCE C03_Rcmgr WITH Conns <- <<>>, Streams <- <<>>, Spans <- <<>>, Peers <- {}, Protos <- {}, Svcs <- {},
        Eps <- {}, EpIP <- <<>>, EpBuckets <- <<>>, Cap <- <<>>, AllowNet <- {}, AllowPeer <- {}, Lim <- <<>>, Inf <- INF,
        Sizes <- {}, Prios <- {}, Dirs <- {}, Fds <- {}, ViewScopes <- {}, Kinds <- {}, Threads <- <<"t1">>,
-       Sequential <- TRUE, Preload <- <<>>, w <- use, op <- use
+       Sequential <- TRUE, RetryGhost <- FALSE, Preload <- <<>>, w <- use, op <- use
 
 TraceLog == ndJsonDeserialize("trace.ndjson")
 Cur == TraceLog[l]
